@@ -60,7 +60,13 @@ type eventRec struct {
 	attrs []Value
 }
 
+type storeSnap struct {
+	colls  [][]collEntry
+	events int
+}
+
 type EnvState struct {
+	snaps    []storeSnap
 	colls    []*Coll
 	events   []eventRec
 	writeLog []string
